@@ -160,6 +160,11 @@ def check_table(case, obs):
     if not obs.claim('round_trip', not raised(w), lambda: 'write_workbook raised %r' % (w,)):
         return
     back = call(xl.read_table, path, 'Data sheet', 'ID')
+    # the identifier column may be named or given by its position ("column name or index"): one and the same answer
+    back0 = call(xl.read_table, path, 'Data sheet', 0)
+    obs.claim('round_trip', raised(back) == raised(back0) and (raised(back) or (list(back0.index) == list(back.index) or
+              (len(back0.index) == len(back.index) and all(_same_cell(a_, b_) for a_, b_ in zip(back0.index, back.index))))),
+              lambda: 'identifier column by position: %r, by name: %r' % (back0 if raised(back0) else list(back0.index), back if raised(back) else list(back.index)))
     present = [i for i in ids if i is not None]
     if len(set(map(str, present))) < len(present):
         obs.claim('duplicates_refused', raised(back) and back.name == 'ValueError',
@@ -403,8 +408,11 @@ def curated_runs():
     # eleven reported fluorescence channels in one sample row, plots on (more histograms than default colours)
     fl11 = ['FL%d-A' % i for i in range(1, 12)]
     i11 = dict(id='I1', fsc='FSC-A', ssc='SSC-A', fl=fl11, time='Time')
-    out.append(dict(arm='run', instruments=[i11], beads=[],
-                    files={'c1.fcs': dict(kind='cells', instrument='I1', seed=21, n=450, datatype='I')},
+    out.append(dict(arm='run', instruments=[i11],
+                    # a beads row clustered on four channels (the clustering figure shows the first three)
+                    beads=[dict(id='B1', instrument='I1', file='beads1.fcs', gate_fraction=0.3, clustering=fl11[:4], mef={fl11[0]: lad}, fault=None)],
+                    files={'c1.fcs': dict(kind='cells', instrument='I1', seed=21, n=450, datatype='I'),
+                           'beads1.fcs': dict(kind='beads', instrument='I1', seed=22)},
                     samples=[dict(id='S1', instrument='I1', beads=None, file='c1.fcs', gate_fraction=0.5,
                                   units={c: ('RFI' if i % 2 else 'Channel') for i, c in enumerate(fl11)}, strain='wt', fault=None)],
                     np_seed=5, plot=True, hist=False, default_out=True))
